@@ -100,6 +100,13 @@ impl<I: Interner> Lifetime<I> {
     #[verifier::external_body]
     pub fn data(&self, interner: I) -> (r: &LifetimeData<I>) ensures *r == lifetime_data(*self) { unimplemented!() }
 }
+// neighbourhood API, real text (not called by the pinned `relate_lifetime_lifetime`; an edit that uses it stays decidable)
+impl<I: Interner> Lifetime<I> {
+//@FN file=chalk-ir/src/lib.rs within="^impl<I: Interner> Lifetime<I>$" fn=inference_var contract=lt_inference_var path=Lifetime::inference_var
+}
+//@CONTRACT lt_inference_var
+    ensures r == (match lifetime_data(*self) { LifetimeData::InferenceVar(v) => Some(v), _ => None })
+//@END
 impl<I: Interner> From<InferenceVar> for EnaVariable<I> {
     #[verifier::external_body]
     fn from(var: InferenceVar) -> (r: Self) ensures r == ena_of::<I>(var) { unimplemented!() }
